@@ -664,3 +664,50 @@ func SortedParams(ps []Param) []Param {
 	sort.SliceStable(r, func(i, j int) bool { return r[i].K < r[j].K })
 	return r
 }
+
+// EncodedWord returns an RFC 2047 encoded word: complete, truncated at any of its '?' positions, or malformed
+// (missing charset / encoding / text, nested, blank or 8-bit inside) — for address and unstructured header fields whose
+// value must be parsed to its end whatever it contains.
+func EncodedWord(rng *common.Rng) string {
+	charset := []string{"utf-8", "UTF-8", "iso-8859-1", "", "x"}[rng.Pick(5)]
+	enc := []string{"q", "Q", "b", "B", "x", ""}[rng.Pick(6)]
+	text := []string{"abc", "QUJD", "a_b=20c", "", "=?utf-8?q?in?=", "a b", "a\xc3\xa9"}[rng.Pick(7)]
+	full := "=?" + charset + "?" + enc + "?" + text + "?="
+	switch rng.Pick(6) {
+	case 0:
+		return full
+	case 1:
+		return full[:len(full)-2] // no closing ?=
+	case 2:
+		return full[:len(full)-1] // only one '?' of the closing
+	case 3:
+		return "=?" + charset + "?" + enc // ends behind the encoding
+	case 4:
+		return "=?" + charset // ends inside the charset
+	default:
+		return full[:rng.Range(2, len(full))] // cut anywhere
+	}
+}
+
+// EncodedWordHeader returns a header line (without line end) of an address or unstructured field whose value contains,
+// and often ends in, an encoded word of EncodedWord.
+func EncodedWordHeader(rng *common.Rng) string {
+	field := []string{"From", "To", "Cc", "Bcc", "Sender", "Reply-To", "Subject", "In-Reply-To", "Content-Description"}[rng.Pick(9)]
+	w := EncodedWord(rng)
+	switch rng.Pick(7) {
+	case 0:
+		return field + ": " + w
+	case 1:
+		return field + ": Bob " + w
+	case 2:
+		return field + ": Bob " + w + " <c@d>"
+	case 3:
+		return field + ": <" + w
+	case 4:
+		return field + ": grp: x@y, " + w
+	case 5:
+		return field + ": \"q\" " + w + " " + EncodedWord(rng)
+	default:
+		return field + ": a@b, " + w
+	}
+}
